@@ -33,7 +33,7 @@ pub type Scheme = KZGCommitmentScheme<Bls12>;
 pub type VK = VerifyingKey<F, Scheme>;
 pub type PK = ProvingKey<F, Scheme>;
 
-pub const POOLS: [usize; 5] = [1, 2, 3, 8, 16];
+pub const POOLS: [usize; 6] = [1, 2, 3, 5, 8, 16];
 
 pub fn in_pool<T: Send>(t: usize, f: impl FnOnce() -> T + Send) -> T {
     rayon::ThreadPoolBuilder::new().num_threads(t).build().unwrap().install(f)
@@ -267,6 +267,17 @@ pub fn perm_case(ctx: &mut Ctx, s: &FamSubject, pk: &PK, t: usize) {
     let ans = perms.iter().map(|p| p.iter().map(fhex).collect::<Vec<_>>().join(",")).collect::<Vec<_>>().join("/");
     ctx.case("perm", !copies.is_empty(), &op, &if ans.is_empty() { "-".to_string() } else { ans });
     ctx.count_n("perm:copies", recd.copies_idx.len() as u64);
+    if t == 1 {
+        // `perminv`: the classes of the requested copies by plain closure (no union-find, no
+        // sizes, no cycles) against the state of the model's `Assembly` and its invariant
+        perminv_case(ctx, s.k, ncols, &recd.copies_idx, false);
+        // the same copies in reversed and in rotated order: same classes (σ may differ)
+        let mut rev = recd.copies_idx.clone();
+        rev.reverse();
+        perminv_case(ctx, s.k, ncols, &rev, true);
+        let flipped: Vec<_> = recd.copies_idx.iter().map(|(a, b, c, d)| (*c, *d, *a, *b)).collect();
+        perminv_case(ctx, s.k, ncols, &flipped, true);
+    }
     // the fixed columns stored in the pk are the ones the recorded synthesis determines
     let n = 1usize << s.k;
     let want = recd.fixed_columns(n);
@@ -713,4 +724,235 @@ pub fn v1_case(ctx: &mut Ctx, fp: &FamParams, seed: u64, reps: usize) {
         other => ctx.oracle_fail("honest-proof-failed:v1", "proving (V1 floor planner) failed", json!({"case": desc, "result": format!("{other:?}")})),
     }
     let _ = c.params();
+}
+
+
+/// Checksum of a vector of field elements: its length and its value as a polynomial at the
+/// point `0x10001` (the Lean driver's `ck`).
+pub fn ck(v: &[F]) -> String {
+    let x = F::from(0x10001u64);
+    let mut acc = F::ZERO;
+    for c in v.iter().rev() {
+        acc = acc * x + *c;
+    }
+    format!("{}:{}", v.len(), fhex(&acc))
+}
+
+fn cks(vs: &[Vec<F>]) -> String {
+    if vs.is_empty() {
+        "-".into()
+    } else {
+        vs.iter().map(|v| ck(v)).collect::<Vec<_>>().join(",")
+    }
+}
+
+/// The recomputed parts of a proving key in the order and by the names of the Lean driver's
+/// `pkfull` answer.
+pub fn derived_line(pk: &PK) -> String {
+    let (parts, _) = pk.verif_derived_parts();
+    let get = |name: &str| -> Vec<Vec<F>> { parts.iter().find(|(n, _)| *n == name).map(|(_, v)| v.clone()).unwrap_or_default() };
+    let one = |name: &str| -> String { get(name).first().map(|v| ck(v)).unwrap_or_else(|| "missing".into()) };
+    format!(
+        "ok ek={} l0={} l_last={} l_active_row={} fixed_polys={} fixed_cosets={} permutation_polys={} permutation_cosets={}",
+        pk.get_vk().get_domain().extended_k(),
+        one("l0"),
+        one("l_last"),
+        one("l_active_row"),
+        cks(&get("fixed_polys")),
+        cks(&get("fixed_cosets")),
+        cks(&get("permutation_polys")),
+        cks(&get("permutation_cosets"))
+    )
+}
+
+/// Correspondence `pkfull`: the Lean model of the tail of `keygen_pk` (`via=keygen`) and of
+/// `ProvingKey::read` (`via=read`) on the real byte image, against the recomputed parts of the
+/// real generated / reloaded key (through the `verif_derived_parts` hook), part by part. The
+/// generated key is made under pool `t`, the reloaded one is read under pool `t2`.
+pub fn pk_full_cases(ctx: &mut Ctx, s: &FamSubject, idx: usize, every_format: bool) {
+    let nfixed = s.vk.fixed_commitments().len();
+    let nperm = s.vk.permutation().commitments().len();
+    let cs = s.vk.cs();
+    let (deg, bf) = (cs.degree(), cs.blinding_factors());
+    let t = POOLS[idx % POOLS.len()];
+    let t2 = POOLS[(idx + 2) % POOLS.len()];
+    let pk_t = in_pool(t, || keygen_pk(s.vk.clone(), &s.circuit).unwrap());
+    let rawb = pk_t.to_bytes(SerdeFormat::RawBytes);
+    ctx.case(
+        "pkfull:keygen",
+        true,
+        &format!("pkfull via=keygen fmt=R nf={nfixed} np={nperm} deg={deg} bf={bf} t={t} {}", hex(&rawb)),
+        &derived_line(&pk_t),
+    );
+    for (fi, (fmt, fname)) in FORMATS.iter().enumerate() {
+        if !every_format && fi != idx % 3 {
+            continue;
+        }
+        let bytes = pk_t.to_bytes(*fmt);
+        let r = in_pool(t2, || read_pk(&bytes, *fmt, &s.fp));
+        let ans = match r {
+            Ok(Ok(p2)) => {
+                // independent of the model: field by field against the generated key
+                let (a, _) = pk_t.verif_derived_parts();
+                let (b, _) = p2.verif_derived_parts();
+                for ((na, va), (_, vb)) in a.iter().zip(b.iter()) {
+                    if va != vb {
+                        ctx.oracle_fail(
+                            &format!("pk-reloaded-part-differs:{na}:{fname}"),
+                            "a part that ProvingKey::read recomputes differs from the generated key's",
+                            json!({"subject": s.desc(), "part": na, "fmt": fname, "threads-keygen": t, "threads-read": t2}),
+                        );
+                    }
+                }
+                derived_line(&p2)
+            }
+            Ok(Err(c)) => format!("err {c}"),
+            Err(_) => "panic".into(),
+        };
+        ctx.case(
+            "pkfull:read",
+            true,
+            &format!("pkfull via=read fmt={fname} nf={nfixed} np={nperm} deg={deg} bf={bf} t={t2} {}", hex(&bytes)),
+            &ans,
+        );
+        // a key file with one permutation polynomial too few / too many (the count of the list
+        // is not tied to the circuit by `read_polynomial_vec`): `compute_polys_and_cosets`
+        // indexes `permutations[i]` for every permutation column
+        if nperm >= 1 && every_format {
+            let vklen = s.vk.to_bytes(*fmt).len();
+            let Some((_, used)) = ser::slice_polyvec(&bytes[vklen..]) else { continue };
+            let ps = vklen + used;
+            let polylen = 4 + 32 * (1usize << s.k);
+            let mut short = bytes[..bytes.len() - polylen].to_vec();
+            short[ps..ps + 4].copy_from_slice(&((nperm - 1) as u32).to_be_bytes());
+            let mut long = bytes.clone();
+            long.extend_from_slice(&bytes[bytes.len() - polylen..]);
+            long[ps..ps + 4].copy_from_slice(&((nperm + 1) as u32).to_be_bytes());
+            for (vname, vb) in [("perm-short", short), ("perm-long", long)] {
+                let ans = match read_pk(&vb, *fmt, &s.fp) {
+                    Ok(Ok(p2)) => {
+                        ctx.count(&format!("pkfull:{vname}:accepted"));
+                        derived_line(&p2)
+                    }
+                    Ok(Err(c)) => format!("err {c}"),
+                    Err(pn) => {
+                        ctx.count(&format!("note:pk-read-panics-on-{vname}:{fname}"));
+                        if *fname != "U" {
+                            // checked formats: a panic on bytes (known finding, findings/C17.json)
+                            ctx.oracle_fail(
+                                &format!("pk-read-panic:{vname}:{fname}"),
+                                "ProvingKey::read panicked on a key file whose permutation list does not have one polynomial per permutation column",
+                                json!({"subject": s.desc(), "variant": vname, "fmt": fname, "panic": pn}),
+                            );
+                        }
+                        "panic".into()
+                    }
+                };
+                ctx.case(
+                    &format!("pkfull:{vname}"),
+                    true,
+                    &format!("pkfull via=read fmt={fname} nf={nfixed} np={nperm} deg={deg} bf={bf} t=1 {}", hex(&vb)),
+                    &ans,
+                );
+            }
+        }
+    }
+}
+
+/// Keys and proofs under two parameter sets that must be the same set (original vs reloaded /
+/// downsized): byte-identical vk, identical pk (stored and recomputed parts), proofs made
+/// under either accepted under the other (commitments to instances and verifier parameters
+/// taken from the verifying side's set).
+pub fn params_interchangeable(ctx: &mut Ctx, label: &str, fp: &FamParams, seed: u64, k: u32, a: &ParamsKZG<Bls12>, b: &ParamsKZG<Bls12>, detail: serde_json::Value) {
+    let circuit = FamCircuit::new(fp.clone(), seed);
+    let gen = |p: &ParamsKZG<Bls12>| -> Result<(VK, PK), String> {
+        mzkh::catch(|| {
+            let vk = keygen_vk_with_k::<F, Scheme, _>(p, &circuit, k).map_err(|e| format!("{e:?}"))?;
+            let pk = keygen_pk(vk.clone(), &circuit).map_err(|e| format!("{e:?}"))?;
+            Ok((vk, pk))
+        })
+        .and_then(|r| r)
+    };
+    let (ka, kb) = match (gen(a), gen(b)) {
+        (Ok(x), Ok(y)) => (x, y),
+        (x, y) => {
+            ctx.oracle_fail(
+                &format!("params-keygen-failed:{label}"),
+                "key generation failed under one of two parameter sets that should be the same",
+                json!({"case": detail, "a": x.err(), "b": y.err()}),
+            );
+            return;
+        }
+    };
+    ctx.count(&format!("params-interchange:{label}"));
+    if vk_image(&ka.0) != vk_image(&kb.0) {
+        ctx.oracle_fail(
+            &format!("params-vk-differs:{label}"),
+            "the same circuit gets a different verifying key under a reloaded / downsized parameter set",
+            json!({"case": detail}),
+        );
+    }
+    if pk_full_digest(&ka.1) != pk_full_digest(&kb.1) {
+        ctx.oracle_fail(&format!("params-pk-differs:{label}"), "the same circuit gets a different proving key under a reloaded / downsized parameter set", json!({"case": detail}));
+    }
+    let wseed = seed + 41;
+    for (pn, pp, ppk, vp, vvk) in [("a->b", a, &ka.1, b, &kb.0), ("b->a", b, &kb.1, a, &ka.0)] {
+        match fam_prove(pp, ppk, fp, wseed).map(|proof| fam_verify(vp, vvk, fp, wseed, &proof)) {
+            Ok(Ok(true)) => ctx.count("proof:across-parameter-sets"),
+            other => ctx.oracle_fail(
+                &format!("params-proof-not-interchangeable:{label}:{pn}"),
+                "a proof made under one parameter set is rejected under a parameter set that should be the same",
+                json!({"case": detail, "direction": pn, "result": format!("{other:?}")}),
+            ),
+        }
+    }
+}
+
+
+/// Identity of the keys of the family member laid out by the V1 floor planner (`None` if it
+/// does not fit `k <= 10`).
+pub fn v1_identity(fp: &FamParams, seed: u64) -> Option<String> {
+    let c = V1Fam(FamCircuit::new(fp.clone(), seed));
+    for k in 4..=10u32 {
+        let params = setup(k, 1000 + k as u64);
+        if let Ok(Ok(vk)) = mzkh::catch(|| keygen_vk_with_k::<F, Scheme, _>(&params, &c, k)) {
+            let pk = keygen_pk(vk.clone(), &c).ok()?;
+            let img = vk_image(&vk);
+            return Some(format!("k={k} vk={} trepr={} derived={}", hex(&blake2b_simd::Params::new().hash_length(16).hash(&img.bytes[1]).as_bytes()[..]), img.repr, pk_full_digest(&pk)));
+        }
+    }
+    None
+}
+
+
+/// Correspondence `perminv` (see the driver): classes of the cells under the requested copies.
+pub fn perminv_case(ctx: &mut Ctx, k: u32, ncols: usize, copies: &[(usize, usize, usize, usize)], variant: bool) {
+    let n = 1usize << k;
+    let mut label: Vec<usize> = (0..ncols * n).collect();
+    for (a, b, c, d) in copies {
+        let (la, lb) = (label[a * n + b], label[c * n + d]);
+        if la != lb {
+            let keep = la.min(lb);
+            let drop = la.max(lb);
+            for l in label.iter_mut() {
+                if *l == drop {
+                    *l = keep;
+                }
+            }
+        }
+    }
+    // labels are least indices by construction (a class keeps the smaller label)
+    let mut count = std::collections::BTreeMap::new();
+    for l in &label {
+        *count.entry(*l).or_insert(0usize) += 1;
+    }
+    let mx = count.values().copied().max().unwrap_or(0);
+    let sum = label.iter().enumerate().fold(0u64, |acc, (i, l)| (acc + (i as u64 + 1) * (*l as u64)) % 1_000_000_007);
+    let cs: Vec<String> = copies.iter().map(|(a, b, c, d)| format!("{a}.{b}.{c}.{d}")).collect();
+    ctx.case(
+        if variant { "perminv:reordered" } else { "perminv" },
+        !copies.is_empty(),
+        &format!("perminv k={k} ncols={ncols} copies={}", if cs.is_empty() { "-".into() } else { cs.join(",") }),
+        &format!("ok classes={} max={mx} sum={sum}", count.len()),
+    );
 }
